@@ -1,11 +1,16 @@
 import Driver.Util
 import Driver.SemDrv
+import Driver.LatchDrv
+import Driver.OnceDrv
 /-! `driver <model>`: reads harness output (cases) on stdin, prints one verdict line per case. -/
 open Driver
 
 def dispatch (model : String) (c : Case) : String :=
   match model with
   | "sem" => SemDrv.runCase c
+  | "latch" => LatchDrv.runCase c
+  | "once" => OnceDrv.runCase c
+  | "c09l" => if c.get "kind" == "latch" then LatchDrv.runCase c else OnceDrv.runCase c
   | _ => s!"case {c.id} reject 0 unknown-model-{model}"
 
 def main (args : List String) : IO UInt32 := do
